@@ -11,6 +11,7 @@
 //   - after ModifyAncients and after SyncAncient (the ancient store behind the
 //     database is wrapped through rawdb.VerifWrapAncientStore),
 //   - before and after every batch.Write() of the key-value store (wrapped),
+//
 // and at every stop every chain accessor is read for every block of the tree.
 // A crash copies the key-value store as it is (batches are atomic) and the
 // freezer directory either as it is, or as it was at the last SyncAncient (for
@@ -30,6 +31,7 @@ import (
 	"strings"
 	"sync/atomic"
 
+	. "gethverif/harness/hxlib"
 	"github.com/ethereum/go-ethereum/common"
 	"github.com/ethereum/go-ethereum/core/rawdb"
 	"github.com/ethereum/go-ethereum/core/types"
@@ -37,7 +39,6 @@ import (
 	"github.com/ethereum/go-ethereum/ethdb"
 	"github.com/ethereum/go-ethereum/ethdb/memorydb"
 	"github.com/ethereum/go-ethereum/rlp"
-	. "gethverif/harness/hxlib"
 )
 
 // ---------------------------------------------------------------- blocks
@@ -524,12 +525,17 @@ func run(c Sx) Result {
 		writeBlock(inner, b)
 	}
 	var (
-		obs     SL
-		oracle  string
-		tags    = map[string]bool{}
-		fail    = func(f string, a ...interface{}) { if oracle == "" { oracle = fmt.Sprintf(f, a...) } }
-		crashed = false
+		obs    SL
+		oracle string
+		tags   = map[string]bool{}
+		fail   = func(f string, a ...interface{}) {
+			if oracle == "" {
+				oracle = fmt.Sprintf(f, a...)
+			}
+		}
 		frozeAny = false
+		known    string      // the recorded finding C25-leftover-below-boundary-after-crash
+		torn     [][2]uint64 // ranges [first, frozen) whose iteration was crashed after SyncAncient, before its KV deletions completed
 	)
 	ref := observe(in.db, bs)
 	obs = append(obs, ref.sx(0))
@@ -634,6 +640,7 @@ func run(c Sx) Result {
 			last = s
 		case 1, 2:
 			stop, mode, late := -1, 0, false
+			firstBefore := last.frozen
 			tag := int64(1)
 			if AsInt(ev[0]) == 2 {
 				if len(ev) != 4 {
@@ -694,26 +701,37 @@ func run(c Sx) Result {
 				}
 				obs = append(obs, SL{I(9), I(cls)})
 				tags[fmt.Sprintf("cycle-class%d", cls)] = true
-				if reached > 0 && crashed {
-					// not a property of the code (C25_side_chains_survive_crash_refuted): only counted
+				if reached > 0 {
+					// side chains are removed below the boundary (C25_side_chains_removed_below) --
+					// except in a range whose iteration was interrupted between SyncAncient and the
+					// end of its deletions (C25_side_chains_survive_crash_refuted): known finding
 					for n := uint64(1); n < last.frozen; n++ {
-						if hs := rawdb.ReadAllHashes(inner, n); len(hs) != 0 {
-							tags["leftover-below-boundary-after-crash"] = true
+						hs := rawdb.ReadAllHashes(inner, n)
+						if len(hs) == 0 {
+							continue
 						}
-					}
-				}
-				if reached > 0 && !crashed && wf {
-					for n := uint64(1); n < last.frozen; n++ {
-						if hs := rawdb.ReadAllHashes(inner, n); len(hs) != 0 {
-							fail("block data left in the key-value store below the frozen boundary at height %d after a completed iteration (event %d)", n, ei)
+						inTorn := false
+						for _, t := range torn {
+							if t[0] <= n && n < t[1] {
+								inTorn = true
+							}
+						}
+						if inTorn {
+							tags["leftover-below-boundary-after-crash"] = true
+							if known == "" {
+								known = fmt.Sprintf("C25-leftover-below-boundary-after-crash: %d block(s) left in the key-value store at height %d < frozen boundary %d after a completed iteration (event %d); the iteration that migrated this height was crashed after SyncAncient and before its deletions", len(hs), n, last.frozen, ei)
+							}
+						} else {
+							fail("block data left in the key-value store below the frozen boundary at height %d after a completed iteration (event %d), not explained by an interrupted iteration", n, ei)
 						}
 					}
 				}
 				continue
 			}
 			// crash + reopen
-			_ = completed
-			crashed = true
+			if !completed && (reached == 2 || reached == 3) && last.frozen > firstBefore {
+				torn = append(torn, [2]uint64{firstBefore, last.frozen})
+			}
 			tags[fmt.Sprintf("crash-stop%d-mode%d", min(reached, stop), min(mode, 2))] = true
 			nd := crashDir(in.root, dur, mode, uint64(mode))
 			roots = append(roots, nd)
@@ -744,6 +762,9 @@ func run(c Sx) Result {
 		}
 	}
 done:
+	if oracle == "" {
+		oracle = known
+	}
 	var tl []string
 	for t := range tags {
 		tl = append(tl, t)
